@@ -351,6 +351,8 @@ def kore_definition(variant: int = 0):
         rule(g(K.Exists(S, y, g(y, z)), x), g(z, x)),
         # the bound variable's sort differs from the sort of the quantified pattern
         rule(f(K.Exists(S, K.EVar('VarV', K.SortApp('SortOther')), g(K.EVar('VarV', K.SortApp('SortOther')), z))), f(z)),
+        # a variable that occurs only on the right-hand side (K's fresh variables): bound by the hint's substitution all the same
+        rule(f(x), g(x, K.EVar('VarW', S))),
         # two sort variables in one axiom (and element variables of those sorts)
         K.SymbolDecl(K.Symbol('pairc', (K.SortVar('S1'), K.SortVar('S2'))), (K.SortVar('S1'), K.SortVar('S2')), C, (K.App('functional'),)),
         K.Axiom((K.SortVar('S1'), K.SortVar('S2')),
